@@ -6,7 +6,7 @@ import re
 from .CommonMixin import CommonMixin, formatNumber
 
 # Regular expression for extracting the parameters from a Gcode command
-GCODE_PARAMS_REGEX = re.compile("^[A-Za-z][0-9]+(?:\\.[0-9]+)?\\s*(.*)$")
+GCODE_PARAMS_REGEX = re.compile("^\\s*[A-Za-z][0-9]+(?:\\.[0-9]+)?\\s*(.*)$")
 
 
 class RetractionState(CommonMixin):
